@@ -200,8 +200,10 @@ def check(spec, env):
     # a raising poll call fails whatever it was shown (a schedule-dependent set, further mapped by
     # the layers above): in such runs the outcome comparison is left to C08 / C01
     poll_raised = any(e[3] == "ufn" and e[4] == "poll-raise" for e in log)
-    for s, st in ([] if poll_raised else list(finals.items())):
+    for s, st in list(finals.items()):
         if s in touched or st[0] in ("cancelled",):
+            continue
+        if poll_raised and st[0] != "pending":
             continue
         if st[0] == "exc" and getattr(st[1], "tag", (None,))[0] == "pollfn":
             continue
